@@ -7,4 +7,14 @@ command -v cargo-kani >/dev/null || { echo "cargo-kani missing"; exit 1; }
 command -v python3-vt >/dev/null || { echo "python3-vt missing"; exit 1; }
 python3-vt -c "import z3" || { echo "z3 python bindings missing"; exit 1; }
 mkdir -p evidence logs replay
+
+# the native replay driver (path dependency on /repo) must build: without it no counterexample can be confirmed
+test -f native/src/bin/replay/main.rs || { echo "native replay sources missing"; exit 1; }
+python3 - <<'PY' || { echo "native replay driver does not build"; exit 1; }
+import sys
+sys.path.insert(0, "lib")
+import nativebuild
+sys.exit(0 if nativebuild.ensure_replay(features="sni") else 1)
+PY
+echo "native replay driver ok"
 echo "setup ok"
